@@ -21,7 +21,7 @@ def split_cases(lines):
     """lines: list of (cmd+obs dict, model dict|None). yields lists per case."""
     cur = []
     for ln in lines:
-        if ln[0].get("k") in ("case", "scase", "enccase", "conccase") and cur:
+        if ln[0].get("k") in ("case", "scase", "enccase", "conccase", "rtcase") and cur:
             yield cur
             cur = []
         cur.append(ln)
@@ -579,6 +579,38 @@ def usable_after_refusal(case):
     return []
 
 
+def rt_converge(case):
+    """C18 (second clause): real realtime clients that only issue local operations after their first sync
+    reach, WITHOUT any further Sync call, one common state: every client shows the same value, has nothing
+    left to push, stands at the end of the stored log, and the value is the one the server rebuilt from
+    that log (when its snapshot is at the end)."""
+    for idx, (ln, mo) in enumerate(case):
+        if ln.get("k") != "rtcase":
+            continue
+        io = ln.get("obs", {})
+        if io.get("setup"):
+            return [dict(step=idx, what="realtime-setup-failed", detail=dict(cmd=strip(ln), msg=io.get("setup")))]
+        if io.get("panic") or io.get("hang"):
+            return [dict(step=idx, what="realtime-run-crashed", detail=dict(cmd=strip(ln), msg=str(io.get("panicMsg"))[-600:]))]
+        if not io.get("converged"):
+            return [dict(step=idx, what="realtime-clients-did-not-converge", detail=dict(cmd=strip(ln), views=io.get("views"), clients=io.get("clients"), waitedMs=io.get("waitedMs")))]
+        st = io.get("store") or {}
+        dts = st.get("datatypes") or []
+        if len(dts) != 1:
+            return [dict(step=idx, what="two-datatypes-for-one-key", detail=dict(cmd=strip(ln), datatypes=dts))]
+        end = dts[0].get("end")
+        for i, c in enumerate(io.get("clients") or []):
+            if c.get("npending") or (c.get("cp") or [None])[0] != end:
+                return [dict(step=idx, what="realtime-client-behind-log", detail=dict(cmd=strip(ln), client=i, state=c, end=end))]
+        views = io.get("views") or []
+        for u in st.get("userDocs") or []:
+            if u.get("ver") == end and views:
+                uv = {({"counter": "Counter", "list": "List"}.get(k, k)): v for k, v in (u["value"] or {}).items()} if isinstance(u["value"], dict) else u["value"]
+                if first_diff(uv, views[0]):
+                    return [dict(step=idx, what="server-copy-differs", detail=dict(cmd=strip(ln), server=uv, client=views[0]))]
+    return []
+
+
 def isolation(case):
     """C17: a request by a client of collection A leaves every document of the other collections
     unchanged; a foreign request is refused."""
@@ -638,10 +670,18 @@ def notify(case):
 def contract(case):
     """C13: create on an existing key / subscribe to a missing key / another type under the key is
     refused through the client's error handler and changes nothing stored; the transition to SUBSCRIBED
-    is reported exactly once per datatype instance."""
+    is reported exactly once per datatype instance; a collection never holds two datatypes under one key
+    (racing SubscribeOrCreate requests included)."""
     subs = {}
     for idx, (ln, mo) in enumerate(case):
         io = ln.get("obs", {})
+        if ln.get("k") == "store" and isinstance(io.get("store"), dict):
+            seen = {}
+            for d in io["store"].get("datatypes", []):
+                k = (d.get("colNum"), d.get("key"))
+                if k in seen:
+                    return [dict(step=idx, what="two-datatypes-for-one-key", detail=dict(key=d.get("key"), duids=[seen[k], d.get("duid")]))]
+                seen[k] = d.get("duid")
         for p in io.get("posts", []) or []:
             for h in p.get("handlers", []):
                 if h.get("h") == "state" and h.get("new") == "SUBSCRIBED":
@@ -703,6 +743,11 @@ def enc_roundtrip(case):
                     return [dict(step=idx, what="shape:" + k, detail=dict(cmd=strip(ln), msg=io.get(k), panicMsg=io.get("panicMsg")))]
             if io.get("err") == 0 and (io.get("recvErr") or first_diff(io.get("viewA"), io.get("viewB"))):
                 return [dict(step=idx, what="shape:sender-and-receiver-differ", detail=dict(cmd=strip(ln), a=io.get("viewA"), b=io.get("viewB"), recvErr=io.get("recvErr")))]
+            if io.get("err") == 0 and io.get("hasWant") and io.get("want") is not None:
+                va = io.get("viewA") or {}
+                got = va.get("List", [None])[0] if ln.get("dt") == "list" else va.get("k")
+                if first_diff(got, io.get("want")):
+                    return [dict(step=idx, what="shape:value-is-not-the-json-value-of-the-input", detail=dict(cmd=strip(ln), got=got, want=io.get("want")))]
     return []
 
 
@@ -812,6 +857,6 @@ def hash_unique(case):
     return []
 
 
-ORACLES = dict(usable_after_refusal=usable_after_refusal, hash_unique=hash_unique, snapshot_replay=snapshot_replay, goroutines_serial=goroutines_serial, fault_recovers=fault_recovers, enc_roundtrip=enc_roundtrip, patch_target=patch_target, loginv=loginv, sconverge=sconverge, refused_noop=refused_noop,
+ORACLES = dict(rt_converge=rt_converge, usable_after_refusal=usable_after_refusal, hash_unique=hash_unique, snapshot_replay=snapshot_replay, goroutines_serial=goroutines_serial, fault_recovers=fault_recovers, enc_roundtrip=enc_roundtrip, patch_target=patch_target, loginv=loginv, sconverge=sconverge, refused_noop=refused_noop,
                isolation=isolation, notify=notify, contract=contract, corr=corr, spec=spec, converge=converge, err_noop=err_noop, no_panic=no_panic,
                seq_gapless=seq_gapless, list_order=list_order, twin=twin, tx_atomic=tx_atomic)
